@@ -959,6 +959,45 @@ pub fn handshake41(caps: u32, max_packet: u32, charset: u8, user: &[u8], tail: &
     p.extend_from_slice(tail);
     p
 }
+pub const CLIENT_CONNECT_ATTRS: u32 = 0x0010_0000;
+pub const CLIENT_PLUGIN_AUTH_LENENC_CLIENT_DATA: u32 = 0x0020_0000;
+/// What a real client puts behind the user name of a HandshakeResponse41, laid out by the
+/// capabilities it announces: the authentication response (length-encoded, one length byte, or
+/// NUL-terminated), the default schema (CONNECT_WITH_DB), the plugin name (PLUGIN_AUTH) and the
+/// connection attributes (CONNECT_ATTRS).
+pub fn handshake41_tail(caps: u32, auth: &[u8], db: &[u8], plugin: &[u8], attrs: &[(&[u8], &[u8])]) -> Vec<u8> {
+    let mut p = Vec::new();
+    if caps & CLIENT_PLUGIN_AUTH_LENENC_CLIENT_DATA != 0 {
+        put_lenenc_int(&mut p, auth.len() as u64);
+        p.extend_from_slice(auth);
+    } else if caps & CLIENT_SECURE_CONNECTION != 0 {
+        p.push(auth.len().min(255) as u8);
+        p.extend_from_slice(&auth[..auth.len().min(255)]);
+    } else {
+        p.extend(auth.iter().filter(|b| **b != 0));
+        p.push(0);
+    }
+    if caps & CLIENT_CONNECT_WITH_DB != 0 {
+        p.extend(db.iter().filter(|b| **b != 0));
+        p.push(0);
+    }
+    if caps & CLIENT_PLUGIN_AUTH != 0 {
+        p.extend(plugin.iter().filter(|b| **b != 0));
+        p.push(0);
+    }
+    if caps & CLIENT_CONNECT_ATTRS != 0 {
+        let mut a = Vec::new();
+        for (k, v) in attrs {
+            put_lenenc_int(&mut a, k.len() as u64);
+            a.extend_from_slice(k);
+            put_lenenc_int(&mut a, v.len() as u64);
+            a.extend_from_slice(v);
+        }
+        put_lenenc_int(&mut p, a.len() as u64);
+        p.extend_from_slice(&a);
+    }
+    p
+}
 /// SSLRequest: the first 32 bytes of HandshakeResponse41 with CLIENT_SSL set.
 pub fn ssl_request(caps: u32, max_packet: u32, charset: u8) -> Vec<u8> {
     let mut p = Vec::new();
